@@ -807,35 +807,45 @@ func (c *Compiler) compileUTF84ByteRange(lo, hi rune, endState StateID) []StateI
 	}
 
 	// UTF-8 4-byte encoding: 11110xxx 10xxxxxx 10xxxxxx 10xxxxxx
-	// For simplicity, use a conservative approach: match any valid 4-byte sequence in range
-	// This creates more states but is correct
-
-	loLead := byte(0xF0 | (lo >> 18))
-	hiLead := byte(0xF0 | (hi >> 18))
-
-	for leadVal := loLead; leadVal <= hiLead; leadVal++ {
-		// Determine cont1 range for this lead byte
-		var c1Lo, c1Hi byte
-		if leadVal == 0xF0 {
-			c1Lo = 0x90 // F0 requires cont1 >= 0x90
-		} else {
-			c1Lo = 0x80
-		}
-		if leadVal == 0xF4 {
-			c1Hi = 0x8F // F4 requires cont1 <= 0x8F
-		} else {
-			c1Hi = 0xBF
-		}
-
-		// Build states for each lead byte value
-		cont3 := c.builder.AddByteRange(0x80, 0xBF, endState)
-		cont2 := c.builder.AddByteRange(0x80, 0xBF, cont3)
-		cont1 := c.builder.AddByteRange(c1Lo, c1Hi, cont2)
-		lead := c.builder.AddByteRange(leadVal, leadVal, cont1)
+	// Split [lo, hi] into sub-ranges whose four bytes vary independently, one
+	// lead/cont1/cont2/cont3 chain per sub-range.
+	for _, seq := range splitUTF84ByteRange(lo, hi, nil) {
+		cont3 := c.builder.AddByteRange(seq[3][0], seq[3][1], endState)
+		cont2 := c.builder.AddByteRange(seq[2][0], seq[2][1], cont3)
+		cont1 := c.builder.AddByteRange(seq[1][0], seq[1][1], cont2)
+		lead := c.builder.AddByteRange(seq[0][0], seq[0][1], cont1)
 		starts = append(starts, lead)
 	}
 
 	return starts
+}
+
+// splitUTF84ByteRange splits the code point range [lo, hi] (U+10000-U+10FFFF) into
+// ranges that are exactly a product of four byte ranges. A range is such a product
+// when, at every continuation position, lo and hi either agree on all higher bits or
+// lo has only 0 bits and hi only 1 bits below; otherwise it is cut at that boundary.
+func splitUTF84ByteRange(lo, hi rune, out [][4][2]byte) [][4][2]byte {
+	for i := uint(1); i < 4; i++ {
+		m := rune(1)<<(6*i) - 1
+		if lo&^m != hi&^m {
+			if lo&m != 0 {
+				out = splitUTF84ByteRange(lo, lo|m, out)
+				return splitUTF84ByteRange((lo|m)+1, hi, out)
+			}
+			if hi&m != m {
+				out = splitUTF84ByteRange(lo, (hi&^m)-1, out)
+				return splitUTF84ByteRange(hi&^m, hi, out)
+			}
+		}
+	}
+	var seq [4][2]byte
+	for k, r := range [2]rune{lo, hi} {
+		seq[0][k] = byte(0xF0 | (r >> 18))
+		seq[1][k] = byte(0x80 | ((r >> 12) & 0x3F))
+		seq[2][k] = byte(0x80 | ((r >> 6) & 0x3F))
+		seq[3][k] = byte(0x80 | (r & 0x3F))
+	}
+	return append(out, seq)
 }
 
 // buildUTF8NonASCIIBranches builds NFA branches for all valid UTF-8 multi-byte sequences.
